@@ -73,7 +73,12 @@ def generate(seed, tier="quick"):
         if i > 0 and srng.random() < 0.5:
             step["edit_seed"] = srng.randint(0, 10**9)
         steps.append(step)
-    driver = "plugin" if sub(seed, "driver").random() < 0.08 else "inline"
+    driver = "plugin" if sub(seed, "driver").random() < 0.12 else "inline"
+    xr = sub(seed, "xfail")
+    if driver == "plugin" and xr.random() < 0.5:
+        f = prog["files"][-1]
+        t = f["tests"][-1] if xr.random() < 0.6 else xr.choice(f["tests"])
+        t["xfail"] = True  # the last test of the session, or some test in between
     return {"program": prog, "steps": steps, "driver": driver, "fmt": draw_fmt(sub(seed, "fmt")),
             "profile": {"scalars": prof.scalars, "containers": prof.containers, "calls": prof.calls, "special": prof.special,
                         "alphabet": prof.alphabet, "max_depth": prof.max_depth, "max_len": prof.max_len, "str_len": prof.str_len},
@@ -200,7 +205,13 @@ def execute(case, ctx):
                     bad_src.add(sid)
         for sid in ops:
             src.setdefault(sid, MISSING)
-        events = W.events_in_order(prog)
+        xfail_tests = {(f["name"], t["name"]) for f in prog["files"] for t in f["tests"] if t.get("xfail")} if driver == "plugin" else set()
+        if xfail_tests:
+            ctx.count("probe_xfail_test_in_history")
+        # comparisons inside xfail tests run against a private inactive state: they are not observations of the session
+        # (a snapshot() evaluated at import time belongs to the session even when an xfail test compares with it)
+        places = {(f["name"], sid): s["place"] for f in prog["files"] for sid, s in f["sites"].items()}
+        events = [ev for ev in W.events_in_order(prog) if (ev[0], ev[1]) not in xfail_tests or places.get((ev[0], ev[2].get("site"))) == "module"]
         m = SessionModel(src, ops, approved).run(events, V.pyval)
         new, res = sim.run_session(ctx, driver, files, {"flags": flags_for(driver, approved), "fmt": fmt})
         if not sim.session_completed(driver, res):
